@@ -261,6 +261,24 @@ func runC12(c *Ctx) {
 		c.Check("F", fnName(fn)+"/deletes are not allowed when building a set", ok, fn.Pos(), 1, "")
 	}
 
+	// ---- consensus: a skipped-to round advances the rotation by the number of rounds skipped -------------------
+	if fn := c.Fn("consensus", "ConsensusState", "enterNewRound"); fn != nil {
+		inc := CallTo(vsT+`\.IncrementProposerPriority$`, "")
+		calls := findInstrs(fn, inc)
+		ok := len(calls) == 1
+		if ok {
+			a := argPaths(callCommon(calls[0]))
+			ok = len(a) == 2 && a[0] == "call:(*types.ValidatorSet).Copy(cs.RoundState.Validators)" && a[1] == "(round - cs.RoundState.Round)"
+		}
+		c.Check("F", fnName(fn)+"/rotation advances a copy of the validators by round - cs.Round", ok, fn.Pos(), len(calls),
+			"entering round r from round cs.Round must apply IncrementProposerPriority(r - cs.Round) to a copy of cs.Validators; any other amount makes a node that skips rounds disagree with the others about the proposer")
+		c.Guarded(fn, "advance the rotation", inc, G("cs.Round < round", Cmp(reR, "<", `^round$`)))
+		for _, in := range findInstrs(fn, StoreTo(`^&cs\.RoundState\.Validators$`)) {
+			v := pathOf(in.(*ssa.Store).Val)
+			c.Check("F", fnName(fn)+"/cs.Validators becomes the advanced copy (or stays)", strings.Contains(v, "call:(*types.ValidatorSet).Copy(cs.RoundState.Validators)") && strings.Contains(v, "cs.RoundState.Validators"), instrPos(in), 1, v)
+		}
+	}
+
 	// ---- consensus state: one increment per block ------------------------------------------------------
 	if fn := c.Fn("kai/state/cstate", "", "updateState"); fn != nil {
 		inc := CallTo(vsT+`\.IncrementProposerPriority$`, "")
